@@ -3,6 +3,7 @@ CONSTANTS
   Budget = 3
   Enabled = {"Name", "Const", "Tuple", "Starred", "Attribute", "Subscript", "Expr", "Assign", "AugAssign", "AnnAssign", "Return", "Delete", "Raise", "Assert", "Global", "Import", "SimpleStmt", "TypeAlias", "Module", "Yield", "List"}
   NameSet = {"a", "b"}
+  ExtraParens = FALSE
   Emit = TRUE
 SPECIFICATION Spec
 INVARIANTS EmitOK
